@@ -40,6 +40,12 @@ CHECKS = {
 CHECKS["C16"] = dict(text="(a) thousands of random token streams tokenised by the real lexer and by a reference tokenizer written from the token table; (b) one small valid program per declaration/statement shape must be read; (c) hundreds of programs pinning fresh variables to random constant expression trees (all operators, redundant parentheses, random layout and comments) run through read+solve on Debug and Release builds - the solution must report exactly the value the expression denotes",
                      note="trusts the reference tokenizer/evaluator; mixing different operators of one precedence level without parentheses, '(x)+1' (a cast) and numerals beyond 64 bits are not generated; typedef is not exercised (semantics undocumented)",
                      technique="runtime monitoring: differential execution of lexer/reader/solver against a reference tokenizer and exact evaluator")
+CHECKS["C01"] = dict(text="generated RIDDLE problems (constraint networks; objects, rules and timelines as those families are added) run through read()+solve() in the configuration matrix h_max/h_add x CHECK_INCONSISTENCIES on/off x Debug/Release; every asserted constraint is evaluated with exact (rational, eps) arithmetic and Kleene booleans on the values the solution JSON exposes and must be True",
+                     note="trusts the reference evaluator and the solution JSON as the exposed solution; one known finding (undecided theory atoms in non-monotone positions) is matched by a precise attribution rule using the lra hooks",
+                     technique="runtime monitoring: reference evaluation of every asserted constraint on each reported solution across build configurations")
+CHECKS["C02"] = dict(text="whenever oRatio answers 'unsolvable' on a generated problem the verdict is compared with ground truth: the planted assignment/plan the problem was built around, z3 on the constraint-only fragment, and equivalence classes of reformulations",
+                     note="'no solution' is only concluded by z3 on the constraint fragment; timeouts are inconclusive",
+                     technique="runtime monitoring: differential verdicts against planted solutions and an SMT reference")
 NA_REASON = "check not built yet in this round (planned; see DESIGN.md)"
 
 hooks_commits = subprocess.run(["git", "-C", "/repo", "log", "--format=%h", "--grep=ORATIO_VERIF"], stdout=subprocess.PIPE, text=True).stdout.split()
